@@ -233,7 +233,7 @@ static int vi_read(void)
 
 static void vi_back(int c)
 {
-	if (vi_buflen < sizeof(vi_buf))
+	if (vi_buflen < LEN(vi_buf))
 		vi_buf[vi_buflen++] = c;
 }
 
